@@ -28,6 +28,8 @@ type c19Case struct {
 	Alt []string `json:"scalars_in_second_representation,omitempty"`
 	// Moves: scalar objects that reached their value through a mutator of the API instead of having limbs written.
 	Moves []mon.ScalarMove `json:"scalar_moves,omitempty"`
+	// Soak > 0: that many traced multiplications in a row (scalars Ks in rotation), each compared with the reference trace.
+	Soak int `json:"soak,omitempty"`
 }
 
 func init() {
@@ -154,6 +156,10 @@ func c19Generate(c *mon.Ctx) {
 		c.Structured(func() any { return &c19Case{E: e, Alt: alts, Moves: mvs} })
 	}
 
+	// a soak: more than 4096 (thorough: 2^16) traced multiplications in one process on one point with a handful of scalars,
+	// every trace compared with the first: extra work done on every N-th call of the process (a sampled consistency check)
+	c.Structured(func() any { return &c19Case{E: mon.MkElemCase(g, aff), Ks: hs[:6], Soak: c.N(4300, 66000)} })
+
 	c.Random(c.N(300, 30000), func(r *gen.Rng) any {
 		var pv gen.PV
 		if r.Intn(3) == 0 {
@@ -235,6 +241,29 @@ func c19Run(c *mon.Ctx, csAny any) {
 
 	c.Count("trace-events-min-ok")
 	c.CountN("trace-events-total", int64(refN))
+
+	if cs.Soak > 0 {
+		c.Count("soak")
+
+		for i := 0; i < cs.Soak; i++ {
+			kh := cs.Ks[i%len(cs.Ks)]
+			n, h, _, pan, pv := c19Trace(cs.E.Build(), mon.Scal(mon.BigH(kh)))
+
+			c.Eval(1)
+
+			if pan {
+				c.Fail(fmt.Sprintf("Multiply panicked at call %d of a soak: %v", i, pv), "trace-panic", nil)
+				return
+			}
+
+			if n != refN || h != refH {
+				c.Fail(fmt.Sprintf("call %d of %d consecutive multiplications of one point in this process (k=%s) recorded %d field-level events, the reference %d: the work done depends on how many calls came before", i, cs.Soak, kh, n, refN), "trace-differs-by-call-count", nil)
+				return
+			}
+		}
+
+		return
+	}
 
 	type traced struct {
 		kh   string
